@@ -218,9 +218,10 @@ def _parse_report(blob: bytes, timed_out: bool, wstatus: int) -> dict:
     return res
 
 
-def run_invocation_fresh(inv: dict, hash_seed_value: int, timeout_s: float = 180.0, start_env: typing.Optional[dict] = None) -> dict:
+def run_invocation_fresh(inv: dict, hash_seed_value: int, timeout_s: float = 180.0, start_env: typing.Optional[dict] = None, py_flags: typing.Optional[typing.List[str]] = None) -> dict:
     """The same invocation in a fresh interpreter started with the given PYTHONHASHSEED (cold process).
-    ``start_env`` is in the environment when the interpreter starts (locale and encoding are decided then)."""
+    ``start_env`` is in the environment when the interpreter starts (locale and encoding are decided then);
+    ``py_flags`` are interpreter options (-X ..., -B) given on its command line."""
     import subprocess
 
     env = dict(os.environ)
@@ -234,7 +235,7 @@ def run_invocation_fresh(inv: dict, hash_seed_value: int, timeout_s: float = 180
     env["PYTHONPATH"] = here
     try:
         p = subprocess.run(
-            [sys.executable, "-m", "simkit.onerun"],
+            [sys.executable] + list(py_flags or []) + ["-m", "simkit.onerun"],
             input=json.dumps(inv).encode("utf-8"),
             stdout=subprocess.PIPE,
             stderr=subprocess.PIPE,
